@@ -471,7 +471,9 @@ func (*Ufs) Create(req *SrvReq) {
 		file, e = os.OpenFile(path, omode2uflags(tc.Mode)|os.O_CREATE, os.FileMode(mode))
 	}
 
-	if file == nil && e == nil {
+	/* a symbolic link is not opened: that would follow it, and fail for a
+	 * target that does not exist (yet) after the link was made */
+	if file == nil && e == nil && tc.Perm&DMSYMLINK == 0 {
 		file, e = os.OpenFile(path, omode2uflags(tc.Mode), 0)
 	}
 
